@@ -190,6 +190,7 @@ func DrawScript(t *rapid.T, p Profile) Script {
 		rapid.Int64Range(0, 1<<40),
 	).Draw(t, "start")
 	ntpBase := int64(1_577_836_800_000_000_000) + rapid.Int64Range(0, 86_400_000_000_000).Draw(t, "ntpBase")
+	cfg.NTPZoneMin = rapid.SampledFrom([]int{0, 0, 0, 120, -330, 345, -720, 840}).Draw(t, "ntpZone")
 
 	// key frame spacing in units
 	unitsPerMin := cfg.SegmentMinDuration / maxI64(frameNS, 1)
